@@ -1716,3 +1716,21 @@ def normalise_continue_else(fn):
         for c in ast.iter_child_nodes(n_):
             c._parent = n_
     return fn
+
+
+def zero_fill(st, bsrc):
+    """st is  B[...] = 0 / B[:] = 0 / B.fill(0) / B = np.zeros(..)  for the buffer text bsrc"""
+    if isinstance(st, ast.Assign) and len(st.targets) == 1:
+        t = st.targets[0]
+        if isinstance(t, ast.Subscript) and src(t.value) == bsrc and const_int(st.value) == 0:
+            sl = t.slice
+            if isinstance(sl, ast.Constant) and sl.value is Ellipsis:
+                return True
+            if isinstance(sl, ast.Slice) and sl.lower is None and sl.upper is None and sl.step is None:
+                return True
+        if src(t) == bsrc and isinstance(st.value, ast.Call) and (dotted(st.value.func) or "").split(".")[-1] in ("zeros", "zeros_like"):
+            return True
+    if isinstance(st, ast.Expr) and isinstance(st.value, ast.Call) and isinstance(st.value.func, ast.Attribute) and st.value.func.attr == "fill" \
+            and src(st.value.func.value) == bsrc and len(st.value.args) == 1 and const_int(st.value.args[0]) == 0:
+        return True
+    return False
